@@ -74,7 +74,38 @@ def classify(e):
     return {'kind': 'other'}
 
 
+def alone():
+    """$C20_ALONE = path of ONE yaml file: this pristine process (nothing was parsed in it before) builds a fresh
+    `Config()` and prints what `load_yaml` makes of the file - the payload the file states when loaded alone."""
+    repo = os.environ['C20_REPO']
+    sys.path.insert(0, repo)
+    import pypyr.config as pc
+    out = {'pypyr_file': pc.__file__}
+    path = os.environ['C20_ALONE']
+    try:
+        try:
+            loader = pc.Config().load_yaml
+        except AttributeError:      # a refactor renamed it: a parser of its own, built here and used once
+            import ruamel.yaml
+
+            def loader(p):
+                with open(p, encoding='utf-8') as f:
+                    return ruamel.yaml.YAML().load(f)
+        obj = loader(path)
+        if obj is None:
+            out['alone'] = {'kind': 'none'}
+        elif isinstance(obj, dict):
+            out['alone'] = {'kind': 'map', 'kvs': [[k if isinstance(k, str) else f'<non-str {k!r}>', enc(v)] for k, v in obj.items()]}
+        else:
+            out['alone'] = {'kind': 'nonmap', 'truthy': bool(obj)}
+    except Exception as e:          # noqa: a file that does not parse: the class is the payload
+        out['alone'] = {'kind': 'parse', 'exc': type(e).__name__}
+    sys.stdout.write(json.dumps(out, ensure_ascii=True) + '\n')
+
+
 def main():
+    if os.environ.get('C20_ALONE'):
+        return alone()
     repo = os.environ['C20_REPO']
     root = os.path.realpath(os.environ.get('C20_ROOT') or os.path.dirname(os.getcwd()))
     script = [{'op': 'init', 'obj': 0}]
